@@ -273,6 +273,149 @@ def _compute(ctx):
             if len(bad) > 20:
                 break
         return bad
+    # ---- B7 tree helpers: flatten / __str__ / get_token_at_offset / within / has_ancestor / is_child_of ------------------
+    ident_cls = repo.classes.get('sqlparse.sql.Identifier')
+    par_cls = repo.classes.get('sqlparse.sql.Parenthesis')
+    stmt_cls = repo.classes.get('sqlparse.sql.Statement')
+
+    def mkgroup(cls, kids):
+        g_ = ME.AbsToken(repo, cls=cls)
+        g_.tokens, g_.parent, g_.is_whitespace = kids, None, False
+        g_.value = ''.join(k.value for k in kids)
+        for k in kids:
+            k.parent = g_
+        return g_
+
+    def lf(v, tt=NAME):
+        t_ = ME.AbsToken(repo, ttype=tt, value=v)
+        t_.parent = None
+        return t_
+
+    def trees():
+        yield mkgroup(stmt_cls, [lf('ab'), lf(' ', WS), lf('c')])
+        yield mkgroup(stmt_cls, [mkgroup(ident_cls, [lf('a'), lf('.', PUNCT), lf('bc')]), lf(' ', WS), lf('d')])
+        yield mkgroup(stmt_cls, [lf('x'), mkgroup(par_cls, [lf('(', PUNCT), mkgroup(ident_cls, [lf('yy')]), lf(')', PUNCT)]), lf('', WS), lf('z')])
+        yield mkgroup(stmt_cls, [mkgroup(par_cls, [lf('(', PUNCT), mkgroup(par_cls, [lf('(', PUNCT), lf(')', PUNCT)]), lf(')', PUNCT)])])
+        yield mkgroup(stmt_cls, [])
+
+    def all_nodes(t):
+        yield t
+        if t.is_group:
+            for k in t.tokens:
+                yield from all_nodes(k)
+
+    def leaves_of(t):
+        if t.is_group:
+            for k in t.tokens:
+                yield from leaves_of(k)
+        else:
+            yield t
+
+    def ancestors(t):
+        p_ = t.parent
+        while p_ is not None:
+            yield p_
+            p_ = p_.parent
+
+    def b7():
+        bad = []
+        for st in trees():
+            ev = ME.Evaluator(ctx, repo.mod('sqlparse.sql'), tl_cls)
+            ev.effects = True         # local work lists (the explicit stack of flatten) are lists the interpreter may change
+            lv = list(leaves_of(st))
+            text = ''.join(t_.value for t_ in lv)
+            got = ev._method_of(st, 'flatten')()
+            if not (isinstance(got, list) and len(got) == len(lv) and all(a is b for a, b in zip(got, lv))):
+                bad.append(f'flatten() of {st.value!r} yields {[getattr(x, "value", x) for x in got] if isinstance(got, list) else got}')
+            for node in all_nodes(st):
+                want = ''.join(t_.value for t_ in leaves_of(node))
+                try:
+                    got = ev._method_of(node, '__str__')()
+                except ME.Crash as e:
+                    got = f'raises {e}'
+                if got != want:
+                    bad.append(f'str() of a node with text {want!r} gives {got!r}')
+            pos = 0
+            spans = []
+            for t_ in lv:
+                spans.append((pos, pos + len(t_.value), t_))
+                pos += len(t_.value)
+            for off in range(0, len(text) + 1):
+                want = next((t_ for a, b, t_ in spans if a <= off < b), None)
+                try:
+                    got = ev._method_of(st, 'get_token_at_offset')(off)
+                except ME.Crash as e:
+                    got = f'raises {e}'
+                if got is not want:
+                    bad.append(f'get_token_at_offset({off}) on {text!r} gives {getattr(got, "value", got)!r}, expected {getattr(want, "value", None)!r}')
+            nodes = list(all_nodes(st))
+            for a in nodes:
+                anc = list(ancestors(a))
+                for cls_ in (ident_cls, par_cls, stmt_cls):
+                    want = any(x.cls is cls_ or (x.cls is not None and cls_ in repo.mro(x.cls)) for x in anc)
+                    try:
+                        got = ev._method_of(a, 'within')(ME.ClsRef(cls_))
+                    except ME.Crash as e:
+                        got = f'raises {e}'
+                    if got is not want:
+                        bad.append(f'{a!r}.within({cls_.name}) = {got}, expected {want}')
+                for b in nodes:
+                    for name, want in (('has_ancestor', any(x is b for x in anc)), ('is_child_of', a.parent is b)):
+                        try:
+                            got = ev._method_of(a, name)(b)
+                        except ME.Crash as e:
+                            got = f'raises {e}'
+                        if bool(got) is not want:
+                            bad.append(f'{a!r}.{name}({b!r}) = {got}, expected {want}')
+            if len(bad) > 20:
+                break
+        return bad
+    f7 = _fn(ctx, 'sqlparse.sql.TokenList.get_token_at_offset')
+    guard('tree', 'tree helpers', f'{f7.mod.relpath}:{f7.node.lineno}',
+          'flatten / str() / get_token_at_offset / within / has_ancestor / is_child_of agree with the tree (five small trees, every node, every offset)', b7)
+
+    # ---- B8 group_tokens: the one editing primitive of the grouping engine --------------------------------------------------
+    def b8():
+        bad = []
+        gt = _fn(ctx, 'sqlparse.sql.TokenList.group_tokens')
+        for n_ in range(1, 5):
+            for start in range(n_):
+                for end in range(start, n_):
+                    for extend in (False, True):
+                        for first_is_group in (False, True):
+                            kids = [lf(f't{i}') for i in range(n_)]
+                            if first_is_group:
+                                kids[start] = mkgroup(ident_cls, [lf('g0'), lf('g1')])
+                            st = mkgroup(stmt_cls, kids)
+                            before = list(leaves_of(st))
+                            ev = ME.Evaluator(ctx, gt.mod, tl_cls)
+                            ev.effects = True
+                            try:
+                                grp = ev._method_of(st, 'group_tokens')(ME.ClsRef(ident_cls), start, end, extend=extend)
+                            except ME.Crash as e:
+                                bad.append(f'group_tokens(Identifier, {start}, {end}, extend={extend}) on {n_} children raises {e}')
+                                continue
+                            after = list(leaves_of(st))
+                            tag = f'group_tokens(Identifier, {start}, {end}, extend={extend}) on {n_} children' + (' (first is an Identifier)' if first_is_group else '')
+                            if len(after) != len(before) or any(a is not b for a, b in zip(after, before)):
+                                bad.append(f'{tag}: leaf sequence changed: {[t_.value for t_ in after]}')
+                                continue
+                            if len(st.tokens) != n_ - (end - start) or st.tokens[start] is not grp:
+                                bad.append(f'{tag}: the list has {len(st.tokens)} children / the group is not at index {start}')
+                            if not grp.is_group or grp.parent is not st or any(k.parent is not grp for k in grp.tokens) or not grp.tokens:
+                                bad.append(f'{tag}: parent links of the new group are wrong')
+                            if getattr(grp, 'value', None) != ''.join(t_.value for t_ in leaves_of(grp)):
+                                bad.append(f'{tag}: cached value {getattr(grp, "value", None)!r} is not the text of the group')
+                            if extend and first_is_group and grp is not kids[start]:
+                                bad.append(f'{tag}: the existing group was not extended')
+                            if any(k.parent is not st for k in st.tokens):
+                                bad.append(f'{tag}: a remaining child lost its parent')
+        return bad
+    g8 = _fn(ctx, 'sqlparse.sql.TokenList.group_tokens')
+    guard('group_tokens', 'TokenList.group_tokens', f'{g8.mod.relpath}:{g8.node.lineno}',
+          'group_tokens replaces exactly the slice by one group (or extends the group at its start), keeps the leaf sequence, sets parent links and the cached text '
+          '(lists of up to 4 children, every slice, extend on/off)', b8)
+
     guard('nav', 'TokenList navigation', loc,
           'token_next / token_prev / token_first / token_next_by / token_index return the neighbour the rules assume (lists of up to 4 children over '
           'whitespace, comment, name; every index; every skip_ws/skip_cm combination)', b6)
